@@ -22,6 +22,25 @@ type IssuerData struct {
 	CredentialStatus interface{} `json:"credentialStatus,omitempty"`
 }
 
+// UnmarshalJSON decodes the issuer data, rejecting a malformed Merkle tree
+// proof instead of letting its decoder panic.
+func (id *IssuerData) UnmarshalJSON(in []byte) error {
+	type issuerDataAlias IssuerData
+	obj := struct {
+		*issuerDataAlias
+		MTP json.RawMessage `json:"mtp,omitempty"`
+	}{issuerDataAlias: (*issuerDataAlias)(id)}
+	if err := json.Unmarshal(in, &obj); err != nil {
+		return err
+	}
+	mtp, err := decodeMTP(obj.MTP)
+	if err != nil {
+		return err
+	}
+	id.MTP = mtp
+	return nil
+}
+
 func (id *IssuerData) authClaim() (*core.Claim, error) {
 	var claim core.Claim
 	err := claim.FromHex(id.AuthCoreClaim)
@@ -125,7 +144,7 @@ func (p *Iden3SparseMerkleProof) UnmarshalJSON(in []byte) error {
 		Type       ProofType       `json:"type"`
 		IssuerData json.RawMessage `json:"issuerData"`
 		CoreClaim  string          `json:"coreClaim"`
-		MTP        *mt.Proof       `json:"mtp"`
+		MTP        json.RawMessage `json:"mtp"`
 	}
 	err := json.Unmarshal(in, &obj)
 	if err != nil {
@@ -143,8 +162,8 @@ func (p *Iden3SparseMerkleProof) UnmarshalJSON(in []byte) error {
 		return err
 	}
 	p.CoreClaim = obj.CoreClaim
-	p.MTP = obj.MTP
-	return nil
+	p.MTP, err = decodeMTP(obj.MTP)
+	return err
 }
 
 func (p *Iden3SparseMerkleProof) ProofType() ProofType {
@@ -172,7 +191,7 @@ func (p *Iden3SparseMerkleTreeProof) UnmarshalJSON(in []byte) error {
 		Type       ProofType       `json:"type"`
 		IssuerData json.RawMessage `json:"issuerData"`
 		CoreClaim  string          `json:"coreClaim"`
-		MTP        *mt.Proof       `json:"mtp"`
+		MTP        json.RawMessage `json:"mtp"`
 	}
 	err := json.Unmarshal(in, &obj)
 	if err != nil {
@@ -190,8 +209,8 @@ func (p *Iden3SparseMerkleTreeProof) UnmarshalJSON(in []byte) error {
 		return err
 	}
 	p.CoreClaim = obj.CoreClaim
-	p.MTP = obj.MTP
-	return nil
+	p.MTP, err = decodeMTP(obj.MTP)
+	return err
 }
 
 func (p *Iden3SparseMerkleTreeProof) ProofType() ProofType {
